@@ -21,31 +21,59 @@ GLOBAL_ASSUMPTIONS = [
 _WORK = {}
 
 
-def _verify_one(key):
+def _verify_one(task):
+    key, ci = task
     spec, registry = _WORK["specs"][key], _WORK["registry"]
     from . import contracts, native
 
     t0 = time.time()
+    if ci == "cross-check":
+        cc = None
+        if spec.get("cross_check", True):
+            try:
+                cc = native.cross_check(spec, n=spec.get("cross_check_n", 40), seed=spec.get("_seed", 0))
+            except Exception:  # noqa: BLE001
+                cc = dict(evaluated=0, failures=[], skipped=traceback.format_exc()[-600:])
+        return dict(key=key, ci=ci, cross_check=cc, obligations=[], error=None, trusted=[], inlined=[], used_contracts=[],
+                    function=None, paths=0, completed_paths=0, wall=time.time() - t0)
     try:
-        r = contracts.verify(spec, registry)
-        r["key"] = key
+        r = contracts.verify(spec, registry, only_cfg=ci)
         r["error"] = None
     except Exception:  # noqa: BLE001
-        r = dict(key=key, obligations=[], function=None, trusted=set(), inlined=set(), used_contracts=set(),
-                 error=traceback.format_exc()[-3000:], paths=0)
-    # CPython cross-check of the contract on the real function
-    cc = None
-    if spec.get("cross_check", True):
-        try:
-            cc = native.cross_check(spec, n=spec.get("cross_check_n", 40), seed=spec.get("_seed", 0))
-        except Exception:  # noqa: BLE001
-            cc = dict(evaluated=0, failures=[], skipped=traceback.format_exc()[-600:])
-    r["cross_check"] = cc
+        r = dict(obligations=[], function=None, trusted=set(), inlined=set(), used_contracts=set(),
+                 error=traceback.format_exc()[-3000:], paths=0, completed_paths=0)
+    r["key"], r["ci"] = key, ci
+    r["cross_check"] = None
     r["wall"] = time.time() - t0
     r["trusted"] = sorted(r.get("trusted", []))
     r["inlined"] = sorted(r.get("inlined", []))
     r["used_contracts"] = sorted(r.get("used_contracts", []))
     return r
+
+
+def _merge(parts):
+    out = dict(key=parts[0]["key"], obligations=[], function=None, trusted=set(), inlined=set(), used_contracts=set(),
+               error=None, paths=0, completed_paths=0, cross_check=None)
+    for p in parts:
+        if p.get("error"):
+            out["error"] = (out["error"] or "") + p["error"]
+        out["obligations"] += p["obligations"]
+        out["function"] = out["function"] or p.get("function")
+        out["trusted"] |= set(p["trusted"])
+        out["inlined"] |= set(map(tuple, p["inlined"]))
+        out["used_contracts"] |= set(map(tuple, p["used_contracts"]))
+        out["paths"] += p.get("paths", 0)
+        out["completed_paths"] += p.get("completed_paths", 0)
+        if p.get("cross_check") is not None:
+            out["cross_check"] = p["cross_check"]
+    if out["completed_paths"] == 0 and not out["error"]:
+        out["obligations"].append(dict(name=f"{_WORK['specs'][out['key']].get('prop')}/{_WORK['specs'][out['key']]['qualname']}/vacuity",
+                                       status="undecided", property_level=False,
+                                       reason="no feasible path reached the end of the function"))
+    out["trusted"] = sorted(out["trusted"])
+    out["inlined"] = sorted(out["inlined"])
+    out["used_contracts"] = sorted(out["used_contracts"])
+    return out
 
 
 def run_property(prop, specs, tier="quick", seed=0, registry=None, extra_assumptions=(), bounded_standins=()):
@@ -55,14 +83,20 @@ def run_property(prop, specs, tier="quick", seed=0, registry=None, extra_assumpt
         s.setdefault("prop", prop)
         s["_seed"] = seed
     _WORK["specs"], _WORK["registry"] = specs, registry  # inherited by fork (specs may hold lambdas)
-    items = list(specs)
+    from .contracts import configurations
+
+    items = []
+    for k, s in specs.items():
+        ncfg = len(list(configurations(s)))
+        items += [(k, ci) for ci in range(ncfg)] + [(k, "cross-check")]
     nproc = max(1, min(int(os.environ.get("VERIF_JOBS", "16")), len(items)))
     if nproc > 1 and not os.environ.get("VERIF_SERIAL"):
         ctx = mp.get_context("fork")
         with ctx.Pool(nproc) as pool:
-            results = pool.map(_verify_one, items, chunksize=1)
+            parts = pool.map(_verify_one, items, chunksize=1)
     else:
-        results = [_verify_one(it) for it in items]
+        parts = [_verify_one(it) for it in items]
+    results = [_merge([p for p in parts if p["key"] == k]) for k in specs]
     obligations, functions, trusted, errors, assumptions = [], [], set(), [], list(GLOBAL_ASSUMPTIONS)
     selfcheck = dict(cross_check={}, paths={}, vacuity_ok=True)
     extra_cases = []
